@@ -23,6 +23,7 @@ static inline int rng_chance(rng_t *r, uint32_t pct) { return rng_below(r, 100) 
 
 /* ---------- output protocol (JSON lines on stdout; thread-safe) ---------- */
 void out_init(int argc, char **argv);           /* parses --seed --from --count --feat-out --prop ; installs crash handlers */
+extern int g_noarch;                             /* --noarch 1: the library is the portable C configuration (no dispatchers, no family symbols) */
 extern uint64_t g_seed, g_from, g_count;        /* case range [g_from, g_from+g_count) */
 extern const char *g_prop;                      /* property id the worker is run for */
 const char *arg_str(const char *name, const char *def);
@@ -52,6 +53,7 @@ void hex(char *dst, const void *src, size_t n); /* dst must hold 2n+1 */
 const char *sym_name(const void *addr);         /* exact-address symbol name from <argv0>.syms (nm), "?" if unknown */
 const char *sym_containing(const void *addr, long *off);
 void *sym_addr(const char *name);               /* NULL if unknown */
+void *sym_addr_prefix(const char *prefix);      /* the only symbol whose name starts with prefix (local statics: name.N), NULL if none or several */
 uintptr_t sym_next_global(uintptr_t a);
 /* static-storage watch (C18): snapshot of every writable input section of the library's objects, taken at the
  * first call; static_watch_check reports bytes that differ from the load-time image, other than the dispatch
